@@ -50,20 +50,23 @@ def run(r):
     # ---- tie: which ingredients the REAL keys forget, on pairs of real trees differing in one ingredient
     n = 600 if quick else 8000
     rc, out, err = run_bin("c12", ["tie", n], seed=r.seed, timeout=1500)
-    cases = json_lines(out)
+    all_lines = json_lines(out)
+    scases = [c for c in all_lines if c.get("store")]
+    cases = [c for c in all_lines if not c.get("store")]
     if rc != 0 or len(cases) < n // 2:
         r.broken_obligation("tie-harness", "c12 tie failed to run or produced too few cases (%d)" % len(cases), (out[-1000:] + err[-2000:]))
     shard = 200
     jobs = []
     for si, ch in enumerate(chunks(cases, shard)):
-        body = ";\n".join("TC %s %s %s %s %s %s %s %s %s" % (c["x"], c["y"], str(c["sig_eq"]).lower(), str(c["node_eq"]).lower(), str(c["inv_eq"]).lower(), str(c["zip_eq"]).lower(),
-                                                                str(c["fx"]).lower(), str(c["fy"]).lower(), str(c["anti_eq"]).lower()) for c in ch)
+        body = ";\n".join("TC %s %s %s %s %s %s %s %s %s %d %d %s %s" % (c["x"], c["y"], str(c["sig_eq"]).lower(), str(c["node_eq"]).lower(), str(c["inv_eq"]).lower(), str(c["zip_eq"]).lower(),
+                                                                str(c["fx"]).lower(), str(c["fy"]).lower(), str(c["anti_eq"]).lower(),
+                                                                c["gx"], c["gy"], str(c["ix"]).lower(), str(c["iy"]).lower()) for c in ch)
         text = ("From Coq Require Import List NArith. Import ListNotations.\nFrom UV Require Import Model.Memo.\nOpen Scope N_scope.\n"
                 "Definition cases : list tcase := [\n%s\n].\n"
                 "Eval vm_compute in (failing_from tcase_ok 0 cases ++ [%d] ++ flat_map deps_eq cases).\n" % (body, SENTINEL))
         jobs.append(("c12_tie_%d" % si, text))
     results = coq_eval_many(jobs, timeout=900)
-    mism, dep_mism, beh_mism = [], [], []
+    mism, dep_mism, beh_mism, ubeh_mism = [], [], [], []
     stats = {"deps_differ_and_un_differs": 0, "deps_differ_but_un_equal": 0, "un_compared": 0, "sig_compared": 0}
     for si, (rc2, o) in enumerate(results):
         ch = cases[si * shard:(si + 1) * shard]
@@ -75,16 +78,21 @@ def run(r):
         for i in ints[:k]:
             mism.append(ch[i])
         deps = ints[k + 1:]
-        if len(deps) != 4 * len(ch):
+        if len(deps) != 5 * len(ch):
             r.broken_obligation("tie-eval", "tie shard %d: unexpected output size" % si, o[-800:])
             continue
         for j, c in enumerate(ch):
-            inv_same, sig_same, all_same, inv_key_same = deps[4 * j:4 * j + 4]
+            inv_same, sig_same, all_same, inv_key_same, under_key_same = deps[5 * j:5 * j + 5]
+            if c.get("under_collide", 2) != 2:
+                stats["under_cache_behaviour_compared"] = stats.get("under_cache_behaviour_compared", 0) + 1
+                # the real under cache returned x's entry for y  <=>  the model's under keys are equal and x's entry was stored
+                if (c["under_collide"] == 1) != (under_key_same == 1 and not c["under_x_reads"]):
+                    ubeh_mism.append(c)
             if c.get("un_collide", 2) != 2:
                 stats["cache_behaviour_compared"] = stats.get("cache_behaviour_compared", 0) + 1
                 # the real cache returned x's inverse for y  <=>  the model's inverse keys are equal
                 # (a hit is only used when the cached inverse has no top-level MatchPattern: [usable], un.rs:45-51)
-                if (c["un_collide"] == 1) != (inv_key_same == 1 and c["x_usable"]):
+                if (c["un_collide"] == 1) != (inv_key_same == 1 and c["x_usable"] and not c["un_x_reads"]):
                     beh_mism.append(c)
             if c["un_eq"] in (0, 1):
                 stats["un_compared"] += 1
@@ -119,6 +127,38 @@ def run(r):
                             json.dumps({"pair": c["show"], "ingredient": c["kind"], "impl": {"anti_key_eq": c["anti_eq"], "sig_key_eq": c["sig_eq"], "node_key_eq": c["node_eq"], "inverse_key_eq": c["inv_eq"], "zip_key_eq": c["zip_eq"]},
                                         "x": c["x"], "y": c["y"]}, ensure_ascii=False))
     r.coverage["tie"]["cache_behaviour_mismatches"] = len(beh_mism)
+    r.coverage["tie"]["under_cache_behaviour_mismatches"] = len(ubeh_mism)
+    if ubeh_mism:
+        c = ubeh_mism[0]
+        r.broken_obligation("tie:Memo.v~under-cache-behaviour", "the real under cache does not behave as the model's under_key / len_store say: asked for y right after x "
+                            "(different results), it %s x's entry (%d cases; ingredient %s)" % ("returned" if c["under_collide"] == 1 else "did not return", len(ubeh_mism), c["kind"]),
+                            json.dumps({"pair": c["show"], "ingredient": c["kind"], "g_sig": [c["gx"], c["gy"]], "inverse": [c["ix"], c["iy"]], "x_reads_len": c["under_x_reads"],
+                                        "x": c["x"], "y": c["y"]}, ensure_ascii=False))
+    # ---- the store side condition on the real caches: a result whose making read the table length is not served again
+    sjobs = []
+    for si, ch in enumerate(chunks(scases, 300)):
+        body = ";\n".join("SC %s %d %s" % (c["x"], c["len"], str(c["reads"]).lower()) for c in ch)
+        text = ("From Coq Require Import List NArith. Import ListNotations.\nFrom UV Require Import Model.Memo.\nOpen Scope N_scope.\n"
+                "Definition cases : list scase := [\n%s\n].\nEval vm_compute in (%d :: map scase_stored cases).\n" % (body, SENTINEL))
+        sjobs.append(("c12_store_%d" % si, text))
+    smism, sobs = [], 0
+    for si, (rc2, o) in enumerate(coq_eval_many(sjobs, timeout=900)):
+        ch = scases[si * 300:(si + 1) * 300]
+        ints = coq_ints(o)
+        if rc2 != 0 or not ints or ints[0] != SENTINEL or len(ints) != len(ch) + 1:
+            r.broken_obligation("tie-eval", "Coq evaluation of store shard %d failed" % si, o[-1500:])
+            continue
+        for c, m in zip(ch, ints[1:]):
+            if c["stored"] != 2:
+                sobs += 1
+                if c["stored"] != m:
+                    smism.append(c)
+    r.coverage["tie"]["store_cases"] = {"cases": len(scases), "length_read_and_observed": sobs, "mismatches": len(smism),
+                                        "by_cache": {w: sum(1 for c in scases if c["which"] == i and c["stored"] != 2) for i, w in enumerate(("un", "anti", "under"))}}
+    if smism:
+        c = smism[0]
+        r.broken_obligation("tie:Memo.v~store-condition", "an inverse whose making read the spans-table length was served again from the %s cache (%d cases): len_store says it is not stored"
+                            % (("un", "anti", "under")[c["which"]], len(smism)), json.dumps({"tree": c["show"], "x": c["x"], "len": c["len"]}, ensure_ascii=False))
     if beh_mism:
         c = beh_mism[0]
         r.broken_obligation("tie:Memo.v~un-cache-behaviour", "the real un-inverse cache does not behave as the model's key says: asked for y right after x (different inverses), "
@@ -181,11 +221,15 @@ def run(r):
     r.coverage["evaluations"] = len(cases) + s["evaluations"]
     r.coverage["distinct_nontrivial"] = s["distinct_programs"] + len(set((c["x"], c["y"]) for c in cases if c["kind"] != "identical"))
     r.coverage["rule"] = ("tie: a random sub-tree (outside opaque variants) of a real compiled program (generated definitions + one use line, Lazy pre-eval) paired with a copy in "
-                          "which one ingredient differs: a nested span, the first span, a literal, a primitive, a binding index, for_un, the function handles' index (with / "
+                          "which one ingredient differs: a nested span, the first span, a literal, a primitive, a binding index, for_un, the g_sig or the inverse flag given to under, "
+                          "the function handles' index (with / "
                           "without the body spans moving: an earlier constant toggled to a constant function), the spans inside called bodies, a handle's name, its sig "
                           "field, a declared signature over the same body; for each pair the real signature / node / inverse / anti / fast-function keys must be equal "
-                          "exactly when the model's are, the real un cache must hit exactly when the model's key is equal and the entry usable, and equal model deps "
-                          "must give equal real inverses and signatures.  search: first the regression corpus (24 histories: every pair that ever differed, repaired or "
+                          "exactly when the model's are; the real un cache and the real under cache (y asked right after x in one new thread, through Node::un_inverse / "
+                          "Node::under_inverse) must hit exactly when the model's key (inv_key / under_key) is equal, the entry usable and x's making did not read the "
+                          "spans-table length; equal model deps must give equal real inverses and signatures; and for a third of the trees the store side condition "
+                          "(len_store) is observed on the real un / anti / under caches: the same tree inverted again in the same thread with a longer spans table must be "
+                          "made anew whenever its fresh result depends on the table length.  search: first the regression corpus (24 histories: every pair that ever differed, repaired or "
                           "open), then histories of 2-6 generated programs sharing content at different positions, function indices and names, programs that keep a call to "
                           "a constant function in a cached inverse paired with their const-fn edit in both orders, consecutive corpus chunks of tests/*.ua and examples/*.ua, "
                           "a chunk with its shifted / reordered / renamed / re-valued / const-fn edit, six texts compiled in Lsp mode on the native and then the denying "
